@@ -1171,7 +1171,7 @@ def _oauth_signature(
 
     See http://oauth.net/core/1.0/#signing_process
     """
-    parts = urllib.parse.urlparse(url)
+    parts = urllib.parse.urlsplit(url)
     scheme, netloc, path = parts[:3]
     normalized_url = (
         scheme.lower() + "://" + _oauth_normalized_netloc(scheme, netloc) + path
@@ -1202,7 +1202,7 @@ def _oauth10a_signature(
 
     See http://oauth.net/core/1.0a/#signing_process
     """
-    parts = urllib.parse.urlparse(url)
+    parts = urllib.parse.urlsplit(url)
     scheme, netloc, path = parts[:3]
     normalized_url = (
         scheme.lower() + "://" + _oauth_normalized_netloc(scheme, netloc) + path
